@@ -262,7 +262,7 @@ func (m *Module) Genesis(w *engine.World, n *engine.Node, gs simapp.GenesisState
 		// router, so MsgCreatePoolWithCommunityPool aborts in the bank keeper.) The chain
 		// starts from a genesis that already contains such a pool, as after an export/import.
 		pool := ftypes.FarmPool{Id: govPoolID, Creator: distrAddr, Description: "created by governance",
-			StartHeight: gp.Start, EndHeight: gp.end(), Editable: false,
+			StartHeight: w.Base() + gp.Start, EndHeight: w.Base() + gp.end(), Editable: false,
 			TotalLptLocked: sdk.NewCoin(gp.Lpt, sdkmath.ZeroInt())}
 		var budget sdk.Coins
 		for _, rw := range gp.Rewards {
@@ -304,7 +304,7 @@ func (m *Module) Started(w *engine.World) {
 		return
 	}
 	p := &poolM{Idx: len(m.order), ID: govPoolID, Creator: distrAddr, CreatorIdx: -1, Lpt: gp.Lpt, Editable: false,
-		Start: gp.Start, End: gp.end(), Rate: map[string]*big.Int{}, Funded: map[string]*big.Int{},
+		Start: w.Base() + gp.Start, End: w.Base() + gp.end(), Rate: map[string]*big.Int{}, Funded: map[string]*big.Int{},
 		Released: map[string]*big.Int{}, Refunded: map[string]*big.Int{}, PaidOut: map[string]*big.Int{},
 		Total: new(big.Int), Far: map[string]*farmerM{}, gov: true}
 	p.Last = p.Start
